@@ -76,6 +76,37 @@ def _exclusive(parents, a, b):
     return False
 
 
+def _taylor_only(fn_node):
+    """every call on `self` / a parameter in the function sits inside a from_call* wrapper (or in a lambda / nested def,
+    evaluated where it is called), and there is at least one such wrapper"""
+    taylor, deferred, n_wrap = set(), set(), 0
+    for c in ast.walk(fn_node):
+        if isinstance(c, ast.Call) and isinstance(c.func, ast.Attribute) and c.func.attr in TAYLOR_WRAPPERS:
+            n_wrap += 1
+            for x in ast.walk(c):
+                taylor.add(id(x))
+        if isinstance(c, ast.Lambda) or (isinstance(c, ast.FunctionDef) and c is not fn_node):
+            for x in ast.walk(c.body if isinstance(c, ast.Lambda) else ast.Module(body=c.body, type_ignores=[])):
+                deferred.add(id(x))
+    if not n_wrap:
+        return False
+    a = fn_node.args
+    params = {x.arg for x in a.posonlyargs + a.args + a.kwonlyargs}
+    for c in ast.walk(fn_node):
+        if not isinstance(c, ast.Call) or id(c) in taylor or id(c) in deferred:
+            continue
+        fn_ = c.func
+        if isinstance(fn_, ast.Name) and fn_.id in params:
+            return False
+        if isinstance(fn_, ast.Attribute) and fn_.attr not in DATA_ACCESSORS:
+            root = fn_.value
+            while isinstance(root, (ast.Attribute, ast.Subscript, ast.Call)):
+                root = root.value if not isinstance(root, ast.Call) else root.func
+            if isinstance(root, ast.Name) and root.id in params and root.id not in ("tf", "np"):
+                return False
+    return True
+
+
 def check_tape_scope(repo, chk, prefixes, rule="T-tape", min_functions=1):
     chk.rule(rule, "in every function that opens a tf.GradientTape, each model-dependent value in the backward slice of the differentiated quantity (a call of a callable parameter such as amp / w_flatmc / f, a method call on self or on a parameter object other than a data accessor, or arithmetic on such a value) is computed inside the tape block: computed before it, the value is a constant for the tape and the derivative through it is dropped while every value stays right")
     n_fn = 0
@@ -174,6 +205,10 @@ def check_tape_scope(repo, chk, prefixes, rule="T-tape", min_functions=1):
                                 h_ = f.cls.lookup(fn_.attr)
                                 if h_ is not None and (any(isinstance(d_, ast.Name) and d_.id == "staticmethod" for d_ in h_.node.decorator_list) or not any(isinstance(x, ast.Name) and x.id == "self" for b_ in h_.node.body for x in ast.walk(b_))):
                                     continue
+                                # a helper that evaluates the model only inside SumVar.from_call* wrappers (or deferred
+                                # in lambdas handed to them) returns Taylor objects: the same exemption one call deeper
+                                if h_ is not None and _taylor_only(h_.node):
+                                    continue
                             out.append(c)
                 return out
 
@@ -201,7 +236,31 @@ def check_tape_scope(repo, chk, prefixes, rule="T-tape", min_functions=1):
                             outside.append((n, rhs, st, "is computed from `%s` before the tape records" % dep[0]))
                             flagged.add(n)
                             changed = True
-            chk.instance(rule, "%s: tape(s) %s differentiate %s; slice of %d names, %d model-dependent definitions outside the tape" % (f.key, ", ".join(sorted(tapes)), ", ".join(sorted(targets)), len(seen), len(outside)), nontrivial=True)
+            # a Python-level truth test of a model value that feeds the differentiated quantity: the branch is decided
+            # by the VALUE (0.0 is false), and the arm not taken never enters the tape - at that value the derivative
+            # with respect to the tested quantity is dropped although both arms give the same value there
+            model_names = {n for n in seen for rhs, _ in defs.get(n, []) if model_calls(rhs)}
+            branch_hits = []
+            for c in own:
+                tests = []
+                if isinstance(c, (ast.If, ast.While, ast.IfExp)):
+                    tests.append(c.test)
+                elif isinstance(c, ast.BoolOp):
+                    tests.extend(c.values[:-1])
+                elif isinstance(c, ast.Assert):
+                    continue
+                todo_t = list(tests)
+                while todo_t:
+                    t = todo_t.pop()
+                    if isinstance(t, ast.UnaryOp) and isinstance(t.op, ast.Not):
+                        todo_t.append(t.operand)
+                    elif isinstance(t, ast.BoolOp):
+                        todo_t.extend(t.values)
+                    elif isinstance(t, ast.Name) and t.id in model_names:
+                        branch_hits.append((t.id, c))
+            for nm_, c in branch_hits[:2]:
+                chk.violation(rule, f.key, "truth-of:%s" % nm_, "`%s` is tested for truth (`%s`) and feeds the differentiated quantity (%s): the value 0.0 selects the arm in which `%s` does not enter the computation, so at that value the derivative with respect to it is missing from the gradient / Hessian although the value of the function is unchanged" % (nm_, norm_text(c.test if hasattr(c, "test") else c)[:60], ", ".join(sorted(targets)), nm_), file=rel, line=c.lineno)
+            chk.instance(rule, "%s: tape(s) %s differentiate %s; slice of %d names, %d model-dependent definitions outside the tape, %d truth tests of a model value" % (f.key, ", ".join(sorted(tapes)), ", ".join(sorted(targets)), len(seen), len(outside), len(branch_hits)), nontrivial=True)
             for n, rhs, st, why in outside[:3]:
                 chk.violation(rule, f.key, "outside-tape:%s" % n, "`%s = %s` %s, and `%s` feeds the differentiated quantity (%s): the tape treats it as a constant, so the derivative through it is missing from the returned gradient / Hessian although the value is unchanged" % (n, norm_text(rhs)[:60], why, n, ", ".join(sorted(targets))), file=rel, line=st.lineno)
     if n_fn < min_functions:
